@@ -1,0 +1,374 @@
+//go:build verif
+
+package msgpipeline
+
+import (
+	"context"
+	"fmt"
+	"sync"
+
+	"github.com/emersion/go-message/textproto"
+	"github.com/emersion/go-smtp"
+	"github.com/foxcpp/maddy/framework/buffer"
+	"github.com/foxcpp/maddy/framework/exterrors"
+	"github.com/foxcpp/maddy/framework/module"
+)
+
+// Trace hooks of the verification harness (/verif, property C06), compiled only with the build
+// tag "verif" and silent unless VerifTraceSink is set. Per message handled by a pipeline
+// (key = pipeline pointer + message ID + serial of the Start call):
+//   Begin/Src/Route  the blocks the message went through (which check and target objects),
+//   Cmd/Ret          what the caller asked the pipeline and what it was answered,
+//   CheckCall        every stage call on a check state and the verdict it returned,
+//   TgtCall          every call that reached a target delivery, with the quarantine flag then.
+// Objects are wrapped once where the pipeline obtains them (check states in
+// checkRunner.checkStates, target deliveries in getDelivery, the delivery returned by Start);
+// an event is emitted when the call has returned, `seq` is assigned under the tracer's mutex.
+
+// VerifTraceSink receives the events.
+var VerifTraceSink func(ev map[string]interface{})
+
+var (
+	verifMu     sync.Mutex
+	verifSeq    int
+	verifSerial int
+	verifMsgs   sync.Map // *checkRunner -> *verifMsg
+)
+
+type verifMsg struct {
+	key string
+	mu  sync.Mutex
+	cmd int
+}
+
+func (m *verifMsg) emit(e string, f map[string]interface{}) {
+	verifMu.Lock()
+	defer verifMu.Unlock()
+	verifSeq++
+	ev := map[string]interface{}{"key": m.key, "seq": verifSeq, "e": e}
+	for k, v := range f {
+		ev[k] = v
+	}
+	VerifTraceSink(ev)
+}
+
+func (m *verifMsg) curCmd() int {
+	m.mu.Lock()
+	defer m.mu.Unlock()
+	return m.cmd
+}
+
+func (m *verifMsg) begin(op, r string) {
+	m.mu.Lock()
+	m.cmd++
+	m.mu.Unlock()
+	m.emit("Cmd", map[string]interface{}{"op": op, "r": r})
+}
+
+func verifErr(err error) (res string, code int, text string) {
+	if err == nil {
+		return "ok", 0, ""
+	}
+	code = exterrors.SMTPCode(err, 450, 550)
+	return "err", code, err.Error()
+}
+
+func (m *verifMsg) ret(op, r string, err error) {
+	res, code, text := verifErr(err)
+	m.emit("Ret", map[string]interface{}{"op": op, "r": r, "res": res, "code": code, "err": text})
+}
+
+func verifObj(x interface{}) string { return fmt.Sprintf("%p %s", x, objectName(x)) }
+
+func verifChecks(l []module.Check) []string {
+	out := make([]string, 0, len(l))
+	for _, c := range l {
+		out = append(out, verifObj(c))
+	}
+	return out
+}
+
+func verifOf(dd *msgpipelineDelivery) *verifMsg {
+	if VerifTraceSink == nil || dd.checkRunner == nil {
+		return nil
+	}
+	m, _ := verifMsgs.Load(dd.checkRunner)
+	if m == nil {
+		return nil
+	}
+	return m.(*verifMsg)
+}
+
+// verifBegin: MsgPipeline.Start was called.
+func verifBegin(d *MsgPipeline, dd *msgpipelineDelivery, mailFrom string) {
+	if VerifTraceSink == nil {
+		return
+	}
+	verifMu.Lock()
+	verifSerial++
+	n := verifSerial
+	verifMu.Unlock()
+	m := &verifMsg{key: fmt.Sprintf("%p/%s#%d", d, dd.msgMeta.ID, n)}
+	verifMsgs.Store(dd.checkRunner, m)
+	m.emit("Begin", map[string]interface{}{"from": mailFrom, "dmarc": d.doDMARC, "first": d.FirstPipeline,
+		"checks": verifChecks(d.globalChecks), "mods": len(d.globalModifiers.Modifiers),
+		"quarantined": dd.msgMeta.Quarantine})
+	m.begin("start", "")
+}
+
+func (m *verifMsg) src(dd *msgpipelineDelivery) {
+	m.emit("Src", map[string]interface{}{"checks": verifChecks(dd.sourceBlock.checks),
+		"mods": len(dd.sourceBlock.modifiers.Modifiers), "reject": dd.sourceBlock.rejectErr != nil,
+		"selected": dd.sourceBlock.perRcpt != nil})
+}
+
+// verifStartFailed: Start is about to return err.
+func verifStartFailed(dd *msgpipelineDelivery, err error) {
+	m := verifOf(dd)
+	if m == nil {
+		return
+	}
+	m.src(dd)
+	m.ret("start", "", err)
+	m.emit("End", nil)
+	verifMsgs.Delete(dd.checkRunner)
+}
+
+type verifPipeDelivery struct {
+	dd *msgpipelineDelivery
+	m  *verifMsg
+}
+
+// verifWrapDelivery: Start succeeded; the caller gets an observing wrapper (nil: tracing is off).
+func verifWrapDelivery(dd *msgpipelineDelivery) module.Delivery {
+	m := verifOf(dd)
+	if m == nil {
+		return nil
+	}
+	m.src(dd)
+	m.ret("start", "", nil)
+	return &verifPipeDelivery{dd: dd, m: m}
+}
+
+func (w *verifPipeDelivery) AddRcpt(ctx context.Context, to string, opts smtp.RcptOptions) error {
+	w.m.begin("rcpt", to)
+	err := w.dd.AddRcpt(ctx, to, opts)
+	w.m.ret("rcpt", to, err)
+	return err
+}
+
+func (w *verifPipeDelivery) Body(ctx context.Context, header textproto.Header, body buffer.Buffer) error {
+	w.m.begin("body", "")
+	err := w.dd.Body(ctx, header, body)
+	w.m.ret("body", "", err)
+	return err
+}
+
+type verifCollector struct {
+	mu    sync.Mutex
+	inner module.StatusCollector
+	st    map[string]string
+}
+
+func (c *verifCollector) SetStatus(rcptTo string, err error) {
+	res, _, _ := verifErr(err)
+	c.mu.Lock()
+	c.st[rcptTo] = res
+	c.mu.Unlock()
+	c.inner.SetStatus(rcptTo, err)
+}
+
+func (w *verifPipeDelivery) BodyNonAtomic(ctx context.Context, c module.StatusCollector, header textproto.Header, body buffer.Buffer) {
+	w.m.begin("bodyNA", "")
+	vc := &verifCollector{inner: c, st: map[string]string{}}
+	w.dd.BodyNonAtomic(ctx, vc, header, body)
+	res := "err" // "ok" iff some recipient got a success status
+	vc.mu.Lock()
+	st := map[string]string{}
+	for r, v := range vc.st {
+		st[r] = v
+		if v == "ok" {
+			res = "ok"
+		}
+	}
+	vc.mu.Unlock()
+	w.m.emit("Ret", map[string]interface{}{"op": "bodyNA", "r": "", "res": res, "code": 0, "err": "", "st": st})
+}
+
+func (w *verifPipeDelivery) Commit(ctx context.Context) error {
+	w.m.begin("commit", "")
+	err := w.dd.Commit(ctx)
+	w.m.ret("commit", "", err)
+	w.m.emit("End", nil)
+	verifMsgs.Delete(w.dd.checkRunner)
+	return err
+}
+
+func (w *verifPipeDelivery) Abort(ctx context.Context) error {
+	w.m.begin("abort", "")
+	err := w.dd.Abort(ctx)
+	w.m.ret("abort", "", err)
+	w.m.emit("End", nil)
+	verifMsgs.Delete(w.dd.checkRunner)
+	return err
+}
+
+// verifRouted: the destination block for a recipient was selected.
+func verifRouted(dd *msgpipelineDelivery, originalTo, to string, blk *rcptBlock) {
+	m := verifOf(dd)
+	if m == nil || blk == nil {
+		return
+	}
+	tgts := make([]string, 0, len(blk.targets))
+	for _, t := range blk.targets {
+		tgts = append(tgts, verifObj(t))
+	}
+	m.emit("Route", map[string]interface{}{"r": originalTo, "eff": to, "blk": fmt.Sprintf("%p", blk),
+		"checks": verifChecks(blk.checks), "targets": tgts, "mods": len(blk.modifiers.Modifiers),
+		"reject": blk.rejectErr != nil})
+}
+
+// ---- check states -----------------------------------------------------------------
+
+type verifState struct {
+	m     *verifMsg
+	check string
+	sid   int
+	inner module.CheckState
+}
+
+var verifSid int
+
+// verifWrapState: checkRunner obtained (or failed to obtain) a state object for a check.
+func verifWrapState(cr *checkRunner, check module.Check, state module.CheckState, err error) module.CheckState {
+	if VerifTraceSink == nil {
+		return state
+	}
+	mm, _ := verifMsgs.Load(cr)
+	if mm == nil {
+		return state
+	}
+	m := mm.(*verifMsg)
+	if err != nil || state == nil {
+		m.emit("CheckInitErr", map[string]interface{}{"c": verifObj(check)})
+		return state
+	}
+	verifMu.Lock()
+	verifSid++
+	sid := verifSid
+	verifMu.Unlock()
+	return &verifState{m: m, check: verifObj(check), sid: sid, inner: state}
+}
+
+func (s *verifState) call(stage, arg string, cmd int, res module.CheckResult) module.CheckResult {
+	v := "none"
+	switch {
+	case res.Quarantine: // the order runAndMergeResults looks at the flags
+		v = "quar"
+	case res.Reject:
+		v = "reject"
+	case res.Reason != nil:
+		v = "ignore"
+	}
+	reason := ""
+	if res.Reason != nil {
+		reason = res.Reason.Error()
+	}
+	s.m.emit("CheckCall", map[string]interface{}{"c": s.check, "sid": s.sid, "stage": stage, "arg": arg, "v": v,
+		"cmd": cmd, "reason": reason, "authres": len(res.AuthResult), "hdr": res.Header.Len()})
+	return res
+}
+
+func (s *verifState) CheckConnection(ctx context.Context) module.CheckResult {
+	cmd := s.m.curCmd()
+	return s.call("conn", "", cmd, s.inner.CheckConnection(ctx))
+}
+
+func (s *verifState) CheckSender(ctx context.Context, mailFrom string) module.CheckResult {
+	cmd := s.m.curCmd()
+	return s.call("sender", "", cmd, s.inner.CheckSender(ctx, mailFrom))
+}
+
+func (s *verifState) CheckRcpt(ctx context.Context, rcptTo string) module.CheckResult {
+	cmd := s.m.curCmd()
+	return s.call("rcpt", rcptTo, cmd, s.inner.CheckRcpt(ctx, rcptTo))
+}
+
+func (s *verifState) CheckBody(ctx context.Context, header textproto.Header, body buffer.Buffer) module.CheckResult {
+	cmd := s.m.curCmd()
+	return s.call("body", "", cmd, s.inner.CheckBody(ctx, header, body))
+}
+
+func (s *verifState) Close() error { return s.inner.Close() }
+
+// ---- target deliveries ---------------------------------------------------------------
+
+type verifTarget struct {
+	m     *verifMsg
+	tgt   string
+	meta  *module.MsgMetadata
+	inner module.Delivery
+}
+
+type verifPartialTarget struct{ *verifTarget }
+
+func (t *verifTarget) log(op, arg string, err error) {
+	res, code, _ := verifErr(err)
+	t.m.emit("TgtCall", map[string]interface{}{"tgt": t.tgt, "op": op, "arg": arg, "res": res, "code": code,
+		"q": t.meta.Quarantine})
+}
+
+// verifWrapTarget: getDelivery called tgt.Start.
+func verifWrapTarget(dd *msgpipelineDelivery, tgt module.DeliveryTarget, d module.Delivery, err error) module.Delivery {
+	m := verifOf(dd)
+	if m == nil {
+		return d
+	}
+	t := &verifTarget{m: m, tgt: verifObj(tgt), meta: dd.msgMeta, inner: d}
+	t.log("start", "", err)
+	if err != nil || d == nil {
+		return d
+	}
+	if _, ok := d.(module.PartialDelivery); ok {
+		return verifPartialTarget{t}
+	}
+	return t
+}
+
+func (t *verifTarget) AddRcpt(ctx context.Context, rcptTo string, opts smtp.RcptOptions) error {
+	err := t.inner.AddRcpt(ctx, rcptTo, opts)
+	t.log("rcpt", rcptTo, err)
+	return err
+}
+
+func (t *verifTarget) Body(ctx context.Context, header textproto.Header, body buffer.Buffer) error {
+	err := t.inner.Body(ctx, header, body)
+	t.log("body", "", err)
+	return err
+}
+
+func (t verifPartialTarget) BodyNonAtomic(ctx context.Context, c module.StatusCollector, header textproto.Header, body buffer.Buffer) {
+	vc := &verifCollector{inner: c, st: map[string]string{}}
+	t.inner.(module.PartialDelivery).BodyNonAtomic(ctx, vc, header, body)
+	var err error
+	vc.mu.Lock()
+	for _, v := range vc.st {
+		if v != "ok" {
+			err = fmt.Errorf("per-recipient failure")
+		}
+	}
+	vc.mu.Unlock()
+	t.log("bodyNA", "", err)
+}
+
+func (t *verifTarget) Commit(ctx context.Context) error {
+	err := t.inner.Commit(ctx)
+	t.log("commit", "", err)
+	return err
+}
+
+func (t *verifTarget) Abort(ctx context.Context) error {
+	err := t.inner.Abort(ctx)
+	t.log("abort", "", err)
+	return err
+}
